@@ -5,8 +5,9 @@ import U3.Model.Pool
 
 ```
 new <maxsize> <block> <proxy>
-req <rid> <retries ~|n> <preload> <release> <redirect> <methodRetryable> <isHead> <attempt>;<attempt>…
-    attempt = connect,send,head,headLen,body,stray,after,seg[,sizes,trailers,hold]
+req <rid> <retries ~|n> <preload> <release> <redirect> <methodRetryable> <isHead> [<fileBody><bodyPos><badTimeout>] <attempt>;<attempt>…
+    attempt = connect,send,head,headLen,body,stray,after,seg[,sizes,trailers,hold[,pre,wait]]
+    pre = ok | unrewind      wait = ok | invalid | intr
     head = none | garbage | <status>:<close>:<cl ~|n>:<location>:<retryAfter>[:<chunked>]
 disp <rid> readall|readk:<k>|readkrel:<k>|release|drain|close|drop|stream:<k>
 closepool
@@ -30,6 +31,12 @@ def send? : String → Option SendOut
 def after? : String → Option After
   | "silent" => some .silent | "fin" => some .fin | "reset" => some .reset | "intr" => some .interrupt | _ => none
 
+def pre? : String → Option PreOut
+  | "ok" => some .ok | "unrewind" => some .unrewindable | _ => none
+
+def wait? : String → Option WaitOut
+  | "ok" => some .ok | "invalid" => some .invalidHeader | "intr" => some .interrupt | _ => none
+
 def head? (s : String) : Option (Option Head) :=
   if s == "none" then some none
   else if s == "garbage" then some (some garbageHead)
@@ -46,11 +53,15 @@ def attempt? (s : String) : Option Attempt :=
   match s.splitOn "," with
   | [c, sd, h, hl, b, st, a, sg] => do
     let a : Attempt := Attempt.mk (← connect? c) (← send? sd) (← head? h) (← hl.toNat?) (← str? b) (← str? st)
-      (← after? a) (← sg.toNat?) [] [] 0
+      (← after? a) (← sg.toNat?) [] [] 0 .ok .ok
     pure a
   | [c, sd, h, hl, b, st, a, sg, sz, tr, ho] => do
     let a : Attempt := Attempt.mk (← connect? c) (← send? sd) (← head? h) (← hl.toNat?) (← str? b) (← str? st)
-      (← after? a) (← sg.toNat?) (← str? sz) (← str? tr) (← ho.toNat?)
+      (← after? a) (← sg.toNat?) (← str? sz) (← str? tr) (← ho.toNat?) .ok .ok
+    pure a
+  | [c, sd, h, hl, b, st, a, sg, sz, tr, ho, pr, wt] => do
+    let a : Attempt := Attempt.mk (← connect? c) (← send? sd) (← head? h) (← hl.toNat?) (← str? b) (← str? st)
+      (← after? a) (← sg.toNat?) (← str? sz) (← str? tr) (← ho.toNat?) (← pre? pr) (← wait? wt)
     pure a
   | _ => none
 
@@ -69,18 +80,27 @@ def how? (s : String) : Option How :=
   | ["stream", k] => k.toNat?.map .stream
   | _ => none
 
+def flags3? (s : String) : Option (Bool × Bool × Bool) :=
+  match s.toList with
+  | [a, b, c] => do pure (← bool? (String.ofList [a]), ← bool? (String.ofList [b]), ← bool? (String.ofList [c]))
+  | _ => none
+
+def reqOp (rid ret pre rel red mret hd ext sc : String) : Option Op := do
+  let retries ← (optNat? ret).map fun
+    | none => Retry.off
+    | some n => Retry.count n
+  let pre ← bool? pre
+  let rel ← bool? rel
+  let red ← bool? red
+  let mret ← bool? mret
+  let hd ← bool? hd
+  let (fb, bp, bt) ← flags3? ext
+  let rc : ReqCfg := ReqCfg.mk pre rel red mret hd fb bp bt
+  pure (.request (← rid.toNat?) rc retries (← script? sc))
+
 def parseOp : List String → Option Op
-  | ["req", rid, ret, pre, rel, red, mret, hd, sc] => do
-    let retries ← (optNat? ret).map fun
-      | none => Retry.off
-      | some n => Retry.count n
-    let pre ← bool? pre
-    let rel ← bool? rel
-    let red ← bool? red
-    let mret ← bool? mret
-    let hd ← bool? hd
-    let rc : ReqCfg := ReqCfg.mk pre rel red mret hd
-    pure (.request (← rid.toNat?) rc retries (← script? sc))
+  | ["req", rid, ret, pre, rel, red, mret, hd, sc] => reqOp rid ret pre rel red mret hd "000" sc
+  | ["req", rid, ret, pre, rel, red, mret, hd, ext, sc] => reqOp rid ret pre rel red mret hd ext sc
   | ["disp", rid, how] => do pure (.dispose (← rid.toNat?) (← how? how))
   | ["closepool"] => some .closePool
   | _ => none
